@@ -140,7 +140,8 @@ def check_sequences(env, acc):
         if not same:
             acc.violation("using_a_gate_changed_it", {"gate": cls, "how": "added twice", "seed": env.seed, "scenario": "sequence"}, None)
         acc.state("seq-reuse", cls)
-    chains = [(("H", ()), ("Z", ()), ("H", ())), (("Rz", (0.4,)), ("Ry", (1.1,)), ("Rz", (0.4,))), (("S", ()), ("H", ()), ("S", ()))]
+    chains = [(("H", ()), ("Z", ()), ("H", ())), (("Rz", (0.4,)), ("Ry", (1.1,)), ("Rz", (0.4,))), (("S", ()), ("H", ()), ("S", ())),
+              (("H", ()), ("S", ()), ("T", ())), (("Rx", (0.7,)), ("Rz", (1.1,)), ("H", ())), (("X", ()), ("S", ()), ("SX", ()))]
     for chain in chains:
         acc.tick("executions"); acc.tick("transitions", 2)
         objs = {}
@@ -157,6 +158,29 @@ def check_sequences(env, acc):
             if np.abs(rq.circuit_gate_matrix(v, 1)[0] - mats[k]).max() > TOL:
                 acc.violation("using_a_gate_changed_it", {**cc, "how": "operand of +", "operand": k[0]}, None)
         acc.state("seq-chain", cc["gate"])
+
+
+def check_settings(env, acc):
+    """settings.unitary_precision says how strictly a matrix is validated; loosening it must not change which
+    matrix a gate implements (small angles, angles next to pi)."""
+    old = lw.settings.unitary_precision
+    lw.settings.unitary_precision = 1e-3
+    try:
+        for nm in ("Rx", "Ry", "Rz", "P"):
+            for th in (1e-3, 1.2e-4, math.pi - 1e-3, -7e-4, env.PH[0]):
+                cc = {"gate": "%s(%r)" % (nm, th), "unitary_precision": 1e-3, "seed": env.seed, "scenario": "settings"}
+                acc.tick("executions"); acc.tick("transitions")
+                try:
+                    A, _, _ = rq.circuit_gate_matrix(getattr(qubit, nm)(th), 1)
+                except Exception as e:  # noqa: BLE001
+                    acc.violation("gate_constructor_raises", cc, {"error": repr(e)})
+                    continue
+                s2, err = rq.compare_up_to_scalar(A, rq.single(nm, th))
+                if err > TOL or abs(s2 - 1) > 1e-9:
+                    acc.violation("not_the_named_gate", cc, {"max_err": err, "s2": s2})
+                acc.state("settings", nm, th)
+    finally:
+        lw.settings.unitary_precision = old
 
 
 def check_swaps(env, acc, max_mode):
@@ -232,6 +256,7 @@ def run(tier, seed):
     acc.merge(sw)
     sq = kernel.Acc()
     check_sequences(env, sq)
+    check_settings(env, sq)
     acc.merge(sq)
     meta = {
         "rule": "every class of lightworks.qubit x angle alphabet {0, pi/2, pi, generic, negative generic, 2pi+generic"
@@ -252,6 +277,9 @@ def run(tier, seed):
 def replay(w, acc):
     case = w["case"]
     env = Env(case.get("seed", 0))
+    if case.get("scenario") == "settings":
+        check_settings(env, acc)
+        return
     if case.get("scenario") == "sequence":
         check_sequences(env, acc)
         return
